@@ -98,6 +98,15 @@ class TwoArgError(Exception):
         return f'[{self.code}] {self.detail}'
 
 
+class UnprintableError(Exception):
+    """str() / repr() of it raise (a buggy __str__ in a user's exception class): whoever formats it for a log line fails."""
+
+    def __str__(self):
+        raise KeyError('no such message field')
+
+    __repr__ = __str__
+
+
 EXC = {
     'ValueError': ValueError,
     'KeyError': KeyError,
@@ -114,6 +123,8 @@ def make_exc(kind: str, label: str) -> BaseException:
         return RuntimeError('Event loop is closed')
     if kind == 'NoLoop':
         return RuntimeError('no running event loop')
+    if kind == 'Unprintable':
+        return UnprintableError(label)
     if kind == 'Unhashable':
         return UnhashableError(f'{kind}@{label}')
     if kind == 'TwoArg':
@@ -953,6 +964,15 @@ class Run:
                                 except BaseException as ex:
                                     if isinstance(ex, asyncio.CancelledError):
                                         raise
+                        # user code that copies / compares / hashes / dumps a finished event must not change it
+                        import copy as _copy
+                        for fn in (_copy.copy, lambda x: x.model_copy(), lambda x: x.model_copy(update={'event_timeout': 1.5}), lambda x: x.model_dump(), lambda x: x.model_dump_json(),
+                                   hash, repr, str, lambda x: x == x):
+                            try:
+                                self.keep.append(fn(e))
+                            except BaseException as ex:  # noqa: BLE001
+                                if isinstance(ex, asyncio.CancelledError):
+                                    raise
                         self.rec('accessed', by=by, ev=res['ev'], snap=self.snap(e))
                 elif k == 'await_of':
                     other = self.actor_events.get(op[1], [])
